@@ -15,6 +15,11 @@ CORPUS = [
     "let p = 'self q;\nlet q = { p };\nres /pq on get -> <q>;\n",
     "let node = { 'labels rec x [x], 'owner owner };\nlet owner = { 'name str, 'nodes [node] };\nres /nodes on get -> <node>;\n",
     "let f x = { 'l rec y [y], 'n (g x) };\nlet g x = f x;\nres / on get -> <f str>;\n",
+    # cycles of URI declarations (through concat, through query parameters): never a schema to cut at
+    "let a = concat /a a;\nres a;\n",
+    "let a = concat /a b;\nlet b = concat /b a;\nres a on get -> <>;\n",
+    "let a = /x?{ 'n b };\nlet b = concat a /y;\nres b on get -> <>;\n",
+    "let a = /x/{ 'id a };\nres a on get -> <>;\n",
     # cycles through properties only (no schema to cut at), at several depths: rejected by the occurs check of the inference
     "let a = 'p a;\nres / on get -> { a };\n",
     "let a = 'p ('q a);\nres / on get -> { a };\n",
